@@ -1,0 +1,24 @@
+// SPDX-FileCopyrightText: 2026 The Pion community <https://pion.ly>
+// SPDX-License-Identifier: MIT
+
+//go:build verif
+
+package stats
+
+// VerifSizes returns the number of recorders and the number of remembered sender reports /
+// receiver reference times over all of them (verification harness only).
+func (r *Interceptor) VerifSizes() map[string]int {
+	r.lock.Lock()
+	defer r.lock.Unlock()
+	srs, rrts := 0, 0
+	for _, rec := range r.recorders {
+		if rr, ok := rec.(*recorder); ok {
+			rr.ms.Lock()
+			srs += len(rr.latestStats.lastSenderReports)
+			rrts += len(rr.latestStats.lastReceiverReferenceTimes)
+			rr.ms.Unlock()
+		}
+	}
+
+	return map[string]int{"recorders": len(r.recorders), "srs": srs, "rrts": rrts}
+}
